@@ -126,7 +126,7 @@ static int pathops(const char *script, const char *outp) {
 // ---- verdicts: a tree of tasks (fork / vfork / threads) issuing marker syscalls mkdirat(AT_FDCWD, DIR/m_ID_D)
 #define VD_MAXT 32
 #define VD_MAXS 64
-struct vd_step { char op; int arg; char dec; };
+struct vd_step { char op; int arg; char dec; char dec2; };
 static struct vd_step vd_tasks[VD_MAXT][VD_MAXS]; static int vd_n[VD_MAXT];
 static char vd_dir[2048]; static int vd_out;
 static void vd_run(int k);
@@ -138,6 +138,17 @@ static void vd_run(int k) {
     if (st->op == 's') {
       snprintf(path, sizeof path, "%s/m_%d_%c", vd_dir, st->arg, st->dec);
       long r = syscall(SYS_mkdirat, AT_FDCWD, path, 0700); int e = errno;
+      int n = snprintf(line, sizeof line, "r %d %ld %d\n", st->arg, r, r < 0 ? e : 0);
+      syscall(SYS_write, vd_out, line, n);
+    } else if (st->op == 'R' || st->op == 'L' || st->op == 'N') {
+      // a call with two pathnames: DIR/m_ID_1_<d1> -> DIR/m_ID_2_<d2>
+      static __thread char path2[4096];
+      snprintf(path, sizeof path, "%s/m_%d_1_%c", vd_dir, st->arg, st->dec);
+      snprintf(path2, sizeof path2, "%s/m_%d_2_%c", vd_dir, st->arg, st->dec2);
+      long r = st->op == 'R' ? syscall(SYS_renameat2, AT_FDCWD, path, AT_FDCWD, path2, 0)
+             : st->op == 'L' ? syscall(SYS_linkat, AT_FDCWD, path, AT_FDCWD, path2, 0)
+             : syscall(SYS_rename, path, path2);
+      int e = errno;
       int n = snprintf(line, sizeof line, "r %d %ld %d\n", st->arg, r, r < 0 ? e : 0);
       syscall(SYS_write, vd_out, line, n);
     } else if (st->op == 'f') {
@@ -165,8 +176,8 @@ static int verdicts(const char *script, const char *dir, const char *outp) {
   while (fscanf(in, "%15s %d %7s", op, &a, d) == 3) {
     if (!strcmp(op, "task")) { cur = a % VD_MAXT; continue; }
     if (vd_n[cur] >= VD_MAXS) continue;
-    struct vd_step *st = &vd_tasks[cur][vd_n[cur]++]; st->arg = a; st->dec = d[0];
-    st->op = !strcmp(op, "s") ? 's' : !strcmp(op, "fork") ? 'f' : !strcmp(op, "vfork") ? 'v' : !strcmp(op, "thread") ? 't' : !strcmp(op, "pause") ? 'p' : !strcmp(op, "exit") ? 'x' : 'w';
+    struct vd_step *st = &vd_tasks[cur][vd_n[cur]++]; st->arg = a; st->dec = d[0]; st->dec2 = d[1];
+    st->op = !strcmp(op, "ren") ? 'R' : !strcmp(op, "lnk") ? 'L' : !strcmp(op, "rn0") ? 'N' : !strcmp(op, "s") ? 's' : !strcmp(op, "fork") ? 'f' : !strcmp(op, "vfork") ? 'v' : !strcmp(op, "thread") ? 't' : !strcmp(op, "pause") ? 'p' : !strcmp(op, "exit") ? 'x' : 'w';
   }
   fclose(in);
   { char l0[64]; int n0 = snprintf(l0, sizeof l0, "p %d\n", (int)getpid()); syscall(SYS_write, vd_out, l0, n0); }
@@ -219,6 +230,14 @@ int main(int argc, char **argv) {
     }
     int st; waitpid(p, &st, 0);
     struct timespec ts = {0, 20000000}; nanosleep(&ts, NULL);
+    _exit(n);
+  } else if (!strcmp(c, "stopcont")) {
+    // the main task stops itself (job control), a child continues it 150 ms later, then it exits N
+    int n = atoi(argv[2]); pid_t me = getpid();
+    pid_t p = fork();
+    if (p == 0) { struct timespec ts = {0, 150000000}; nanosleep(&ts, NULL); syscall(SYS_kill, me, SIGCONT); _exit(0); }
+    syscall(SYS_kill, me, SIGSTOP);
+    int st; waitpid(p, &st, 0);
     _exit(n);
   } else if (!strcmp(c, "rlimits")) {
     // getrlimit of every resource, one JSON line on stdout
@@ -479,6 +498,14 @@ int main(int argc, char **argv) {
     }
     else if (!strcmp(k, "openat2_bad_how")) { strcpy(reg, "/dev/null"); r = syscall(437, -100, reg, 8L, 24L); }
     else if (!strcmp(k, "openat2_how_cross")) { strcpy(reg, "/dev/null"); r = syscall(437, -100, reg, reg + 2 * 4096 - 4, 24L); }
+    else if (!strncmp(k, "openat2_size_", 13)) {
+      // a well-formed call first, then one whose size argument is not sizeof(struct open_how): the kernel answers EINVAL / E2BIG
+      static unsigned long how[8]; strcpy(reg, "/dev/null");
+      r = syscall(437, -100, reg, how, 24L);
+      const char *z = k + 13;
+      unsigned long sz = !strcmp(z, "8") ? 8UL : !strcmp(z, "0") ? 0UL : !strcmp(z, "23") ? 23UL : !strcmp(z, "neg") ? (unsigned long)-1L : !strcmp(z, "huge") ? 1UL << 40 : 4097UL;
+      r = syscall(437, -100, reg, how, sz);
+    }
     else if (!strcmp(k, "execve_bad")) { r = syscall(SYS_execve, 8L, 8L, 8L); }
     else if (!strcmp(k, "symlink_nest")) {
       // symlinks that never resolve: a self-nesting link and a two-link cycle, reached by absolute path
